@@ -88,7 +88,9 @@ C14(e, p, o) ==
              ~(e.calls[i].h \in o.R /\ e.calls[i].h \in o.RH /\ e.res = "err"),
           "C14_failed_handler_keeps_header_and_returns_error")
   \cup If(\E i \in DOMAIN e.calls : e.calls[i].h \notin rng, "C14_no_handler_call_outside_range")
-  \cup If(\E h \in rng : h \in o.RH /\ (\A k \in {1, 2, 3} : \E i \in CallsFor(e, h, k) : e.calls[i].out = "ok"),
+  \* (not judged when the datastore refused the final commit of a deletion that ran into its deadline: what the failed call
+  \* had done is legitimately lost there, and the retry calls the handlers again)
+  \cup If(~e.ctxRefused /\ \E h \in rng : h \in o.RH /\ (\A k \in {1, 2, 3} : \E i \in CallsFor(e, h, k) : e.calls[i].out = "ok"),
           "C14_header_whose_handlers_all_returned_nil_is_removed")
   \cup If(retryTo # 0 /\ retryFail # 0 /\ e.from = p.tail /\ e.to = retryTo /\ e.failAt = 0 /\
           (CallsFor(e, retryFail, 1) = {} \/ CallsFor(e, retryFail, 2) = {} \/ CallsFor(e, retryFail, 3) = {}), "C14_retry_invokes_handlers_again")
